@@ -1743,15 +1743,9 @@ class UserSpaceImpl(*_user_space_impl_base):
             raise ValueError("Invalid name '%s'" % name)
 
         if name in self.namespace:
-            if name in self.refs:
-                if name in self.own_refs:
-                    self.model.refmgr.change_ref(self, name, value, refmode)
-                elif self.refs[name].parent is self.model:
-                    self.model.refmgr.new_ref(self, name, value, refmode)
-                else:
-                    raise RuntimeError("must not happen")
-
-            elif name in self.cells:
+            # A model-level reference of the same name must not hide
+            # a cells or a child space of this space
+            if name in self.cells:
                 if not self.cells[name].is_cached:
                     raise ValueError(
                         "cannot set value because is_cached is False")
@@ -1759,6 +1753,17 @@ class UserSpaceImpl(*_user_space_impl_base):
                     self.cells[name].set_value((), value)
                 else:
                     raise AttributeError("Cells '%s' is not a scalar." % name)
+
+            elif name in self.named_spaces:
+                raise ValueError("Space named '%s' already exist" % name)
+
+            elif name in self.refs:
+                if name in self.own_refs:
+                    self.model.refmgr.change_ref(self, name, value, refmode)
+                elif self.refs[name].parent is self.model:
+                    self.model.refmgr.new_ref(self, name, value, refmode)
+                else:
+                    raise RuntimeError("must not happen")
             else:
                 raise ValueError
         else:
